@@ -35,12 +35,16 @@ lazy_static! {
 pub(crate) fn exec(var: Variable) -> Variable {
     let element_type = var.as_type().element_type().unwrap();
     let default = Variable::of_type(&element_type).unwrap_or(Variable::Void);
+    #[cfg(feature = "verif")]
+    crate::verif::mark_helper(&ITER);
     let result = ITER
         .exec_with_args(&[var, default])
         .unwrap()
         .into_function()
         .unwrap();
     let mut result = Arc::unwrap_or_clone(result);
+    #[cfg(feature = "verif")]
+    crate::verif::mark_helper(&result);
     result.return_type = var_type!((bool, element_type));
     result.into()
 }
